@@ -42,7 +42,10 @@ contract(f'{TC}::TrajectoryCalc.zero_angle', props=('C02', 'C10'),
          modifies=ONLY_THE_CALCULATOR, reveal=['line_through'], modular=True,
          result_shape=QAng(Unit.Radian, value=Real(lo=-1.6, hi=1.6)).alternatives()[0],
          use={f'{TC}::TrajectoryCalc._integrate': ['returns-the-recorded-rows-at-least-one',
-                                                    'zeroing-run-height-is-a-function-of-the-elevation-used']})
+                                                    'zeroing-run-height-is-a-function-of-the-elevation-used']},
+         at_calls={f'{TC}::TrajectoryCalc._integrate': [
+             ('every-zeroing-run-is-of-this-shot-to-the-horizontal-zero-distance-without-recording',
+              'same_object(shot_info, caller_shot_info) and maximum_range == caller_zero_distance and filter_flags == 0')]})
 
 contract(f'{TC}::TrajectoryCalc.trajectory', props=('C10', 'C03', 'C11'),
          params=dict(self=Built(tc.TrajectoryCalc, config_shape()), shot_info=SHOT,
